@@ -78,9 +78,14 @@ class SequentialPolicy(Policy):
 
     def choose(self, kind, options, current=None):
         if kind == 'actor':
+            # user threads first (a user thread blocked in settle() must get the token as soon as
+            # the networking thread is idle), then the current actor, then networking threads
+            for i, o in enumerate(options):
+                if o.startswith('u'):
+                    return i
             if current is not None and current in options:
                 return options.index(current)
-            for pref in ('u', 'n', 's'):
+            for pref in ('n', 's'):
                 for i, o in enumerate(options):
                     if o.startswith(pref):
                         return i
